@@ -22,6 +22,9 @@
 EXTENDS Eval
 
 CONSTANT DEV_MissingDynAnchorFails
+\*   DEV_FalsyBesideRef - (the code before the fix) the "false additionalProperties" shortcut recognises the false
+\*     schema by its "not" member alone, also under draft-07 where {"$ref": X, "not": {}} means X
+CONSTANT DEV_FalsyBesideRef
 
 \* Seeded mutations of the evaluator, each of a kind a maintainer could plausibly introduce (every one was
 \* produced by an independent agent against the real code, see seeded/INDEX.md).  With MUT_Eval = "none" the
@@ -205,9 +208,11 @@ Cv(U, dr, a, v, stack) ==
       ev1 == propNm \cup {pr[2] : pr \in patPairs}
       hasAdd == Has(s, "additionalProperties")
       \* after Unmarshal, false is {"not": {}}: Not != nil and *Not is the zero Schema
+      \* (Not != nil && *Not is the zero Schema - whatever else the schema carries; since the fix: unless draft-07 and $ref)
       falsy == hasAdd /\ (s.additionalProperties = FalseS
-                          \/ (DOMAIN s.additionalProperties = {"not"}
-                              /\ (s.additionalProperties["not"] = TrueS \/ DOMAIN s.additionalProperties["not"] = {})))
+                          \/ ("not" \in DOMAIN s.additionalProperties
+                              /\ (s.additionalProperties["not"] = TrueS \/ DOMAIN s.additionalProperties["not"] = {})
+                              /\ (DEV_FalsyBesideRef \/ ~(dr = "d7" /\ "ref" \in DOMAIN s.additionalProperties))))
       addOK == hasAdd => IF falsy THEN nms \ ev1 = {}
                          ELSE \A k \in nms \ ev1 : C(SegK("additionalProperties"), v.m[k]).ok
       ev2 == IF hasAdd /\ ~falsy THEN nms ELSE ev1
